@@ -15,7 +15,23 @@ EXTENDS FzfChars, FiniteSets, TLC
 (* TLCEval(v) = v; it only makes TLC build the value once instead of re-evaluating a function expression on every  *)
 (* application.                                                                                                    *)
 
-Blank(c) == c \in Whites      \* awkTokenizer tests bytes 9 and 32; unicode.IsSpace agrees on the alphabet
+(* AWK style (the default delimiter).  DOCUMENTED ("AWK-style", like the default field splitting of awk inside one   *)
+(* record): fields are separated by runs of blanks and the blanks are EXACTLY the two characters TAB and SPACE.       *)
+(* Tokenizing is BY CHARACTER: a line is a sequence of characters (symbols), a field boundary lies between two        *)
+(* characters and depends on nothing but which of the characters are TAB / SPACE.  Hence every other character is    *)
+(* ordinary field content: the other control characters (CR, VT, FF, BS, US, DEL), the white space of Unicode        *)
+(* beyond ASCII (NBSP U+00A0, NEL U+0085, U+2003, U+3000), zero width space, and every multi-byte character          *)
+(* whatever bytes its UTF-8 encoding is made of (a-grave C3 A0, a-ogonek C4 85, dagger E2 80 A0, U+4F60 E4 BD A0,    *)
+(* U+5800 E5 A0 80: the bytes 0x85 / 0xA0 are NEL / NBSP in Latin-1).  CODE-DERIVED: LF, which cannot occur in a     *)
+(* line read with the default record separator, is field content as well (awk would split there).                    *)
+AwkBlanks == {" ", "TAB"}
+Blank(c) == c \in AwkBlanks
+ASSUME AwkBlanks = Whites /\ AwkBlanks \cap OtherSpaces = {}
+(* White space for every TRIMMING step (trailing white space of a stripped field / of a rendition, leading and       *)
+(* trailing white space of a placeholder, the white space a prefix / suffix term skips): CODE-DERIVED                *)
+(* unicode.IsSpace (strings.TrimSpace, TrimRightFunc(unicode.IsSpace), Chars.LeadingWhitespaces /                    *)
+(* TrailingWhitespaces), a proper superset of the AWK blanks.                                                        *)
+Space(c) == IsSpace(c)
 
 -------------------------------------------------------------------------------
 (* Sequence helpers *)
@@ -27,10 +43,13 @@ HasAt(s, i, p) == /\ i >= 1 /\ i + Len(p) - 1 <= Len(s)
                   /\ \A k \in 1..Len(p) : s[i + k - 1] = p[k]
 RECURSIVE LeadBlanks(_)
 LeadBlanks(s) == IF s # <<>> /\ Blank(Head(s)) THEN 1 + LeadBlanks(Tail(s)) ELSE 0
-RECURSIVE TrailBlanks(_)
-TrailBlanks(s) == IF s # <<>> /\ Blank(s[Len(s)]) THEN 1 + TrailBlanks(SubSeq(s, 1, Len(s) - 1)) ELSE 0
-TrimRight(s) == SubSeq(s, 1, Len(s) - TrailBlanks(s))
-TrimBoth(s) == SubSeq(s, LeadBlanks(s) + 1, Len(s) - TrailBlanks(s))        \* strings.TrimSpace
+RECURSIVE LeadSpaces(_)
+LeadSpaces(s) == IF s # <<>> /\ Space(Head(s)) THEN 1 + LeadSpaces(Tail(s)) ELSE 0
+RECURSIVE TrailSpaces(_)
+TrailSpaces(s) == IF s # <<>> /\ Space(s[Len(s)]) THEN 1 + TrailSpaces(SubSeq(s, 1, Len(s) - 1)) ELSE 0
+TrimRight(s) == SubSeq(s, 1, Len(s) - TrailSpaces(s))
+TrimBoth(s) == IF LeadSpaces(s) = Len(s) THEN <<>>
+               ELSE SubSeq(s, LeadSpaces(s) + 1, Len(s) - TrailSpaces(s))   \* strings.TrimSpace
 SetMin(S) == CHOOSE x \in S : \A y \in S : x <= y
 SetMax(S) == CHOOSE x \in S : \A y \in S : x >= y
 
@@ -125,7 +144,7 @@ Transform(toks, rs) == TLCEval([k \in 1..Len(rs) |-> Select(toks, rs[k])])
 JoinT(parts) == Concat([k \in 1..Len(parts) |-> parts[k].t])
 
 -------------------------------------------------------------------------------
-(* StripLastDelimiter: removes one trailing delimiter, then trailing blanks. *)
+(* StripLastDelimiter: removes one trailing delimiter, then trailing white space. *)
 RECURSIVE LastMatchStart(_, _, _, _)
 LastMatchStart(d, s, i, last) ==       \* start of the last regex match (scanning left to right) if it ends at Len(s), else 0
     IF i > Len(s) THEN last
@@ -143,7 +162,7 @@ StripLastDelimiter(s, d) == TrimRight(StripDelim(s, d))
 (* --nth: the search scope.  DOCUMENTED: the expressions limit the search scope; offsets refer to the whole line.    *)
 (* CODE-DERIVED: every expression of the list is a separate scope (a term never matches across two of them), scopes   *)
 (* are tried in list order and the first that matches wins; with a non-AWK delimiter the LAST scope of the list      *)
-(* loses its trailing delimiter and trailing blanks ("to allow suffix match").                                        *)
+(* loses its trailing delimiter and trailing white space ("to allow suffix match").                                        *)
 ScopesT(toks, d, nth) ==
     LET ps == Transform(toks, nth) IN
     TLCEval([k \in 1..Len(ps) |-> IF k = Len(ps) /\ d.kind # "awk" THEN [t |-> StripLastDelimiter(ps[k].t, d), p |-> ps[k].p]
@@ -156,7 +175,7 @@ FullRange(r) == r.lo \in {0, 1} /\ r.hi \in {0, -1}
 EffectiveNth(nth, extended) == IF (~extended \/ Len(nth) = 1) /\ (\E k \in 1..Len(nth) : FullRange(nth[k])) THEN <<>> ELSE nth
 ExtendedKind(kind) == kind # "xexact"
 (* term kinds: "exact" ('t), "prefix" (^t), "suffix" (t$), "fuzzy" (t), "xexact" (--no-extended --exact);            *)
-(* case-sensitive, no normalisation, terms contain no blank.  What a kind means on a text is C01/C02's subject; the   *)
+(* case-sensitive, no normalisation, terms contain no white space.  What a kind means on a text is C01/C02's subject; the   *)
 (* definitions here are the plain ones.                                                                              *)
 RECURSIVE Embeds(_, _)
 Embeds(term, t) == IF term = <<>> THEN TRUE
@@ -164,12 +183,12 @@ Embeds(term, t) == IF term = <<>> THEN TRUE
                    ELSE IF Head(term) = Head(t) THEN Embeds(Tail(term), Tail(t)) ELSE Embeds(term, Tail(t))
 Holds(kind, term, t) ==
     CASE kind \in {"exact", "xexact"} -> \E i \in 1..Len(t) : HasAt(t, i, term)
-      [] kind = "prefix" -> HasAt(t, LeadBlanks(t) + 1, term)
-      [] kind = "suffix" -> HasAt(t, Len(t) - TrailBlanks(t) - Len(term) + 1, term)
+      [] kind = "prefix" -> HasAt(t, LeadSpaces(t) + 1, term)
+      [] kind = "suffix" -> HasAt(t, Len(t) - TrailSpaces(t) - Len(term) + 1, term)
       [] kind = "fuzzy"  -> Embeds(term, t)
 Determined(kind) == kind \in {"prefix", "suffix"}
 (* 0-based start of the match inside t for the kinds that fix it *)
-StartIn(kind, term, t) == IF kind = "prefix" THEN LeadBlanks(t) ELSE Len(t) - TrailBlanks(t) - Len(term)
+StartIn(kind, term, t) == IF kind = "prefix" THEN LeadSpaces(t) ELSE Len(t) - TrailSpaces(t) - Len(term)
 NoMatch == [matched |-> FALSE, part |-> 0, lo |-> 0, hi |-> 0, s |-> -1, e |-> -1]
 (* matched; the scope that matched and its extent [lo, hi) in characters of the line; s, e (0-based, e exclusive)     *)
 (* for the determined kinds, -1 otherwise                                                                            *)
@@ -207,7 +226,7 @@ ObservedOk(line, d, nth, kind, term, matched, s, e, pos) ==
 (* --with-nth / --accept-nth.  A specification is either a plain list of expressions or a template: a sequence of    *)
 (* parts [k |-> "lit", v |-> text], [k |-> "nth", v |-> list of expressions], [k |-> "n"].                            *)
 (* DOCUMENTED: plain list = the selected fields joined; template = each {expr} evaluates to its fields with the       *)
-(* trailing delimiter stripped, {n} to the ordinal index.  CODE-DERIVED: "stripped" also removes trailing blanks.    *)
+(* trailing delimiter stripped, {n} to the ordinal index.  CODE-DERIVED: "stripped" also removes trailing white space.*)
 RECURSIVE NatChars(_)
 DigitChar(n) == CASE n = 0 -> "0" [] n = 1 -> "1" [] n = 2 -> "2" [] n = 3 -> "3" [] n = 4 -> "4"
                   [] n = 5 -> "5" [] n = 6 -> "6" [] n = 7 -> "7" [] n = 8 -> "8" [] n = 9 -> "9"
@@ -227,7 +246,7 @@ AcceptText(line, d, spec, index) == StripLastDelimiter(RenderRaw(line, d, spec, 
 (* --nth together with --with-nth works on the rendition (DOCUMENTED) *)
 WithNthMatch(line, d, spec, index, nth, kind, term) == NthMatch(WithNthText(line, d, spec, index), d, nth, kind, term)
 
-(* {expr} placeholders (replacePlaceholder, raw flag): fields joined, ONE trailing delimiter removed (blanks kept),   *)
+(* {expr} placeholders (replacePlaceholder, raw flag): fields joined, ONE trailing delimiter removed (white space kept), *)
 (* then - DOCUMENTED - leading and trailing white space stripped unless the s flag is given.                         *)
 Placeholder(line, d, nth, keepSpace) ==
     LET str == StripDelim(JoinT(Transform(Tokenize(line, d), nth)), d) IN
@@ -272,6 +291,13 @@ CutsRight(s, d) ==
             /\ M # {} => SetMin(M) + DelimLenAt(d, s, SetMin(M)) - 1 = e     \* the first one closes the field
             /\ (d.kind = "str" /\ i = n) => M = {}
             /\ (d.kind = "re") => toks[i].t # <<>>
+(* AWK style is by character and only TAB / SPACE matter: replacing every other character by a letter changes       *)
+(* neither the number of fields nor their offsets and lengths                                                        *)
+Skeleton(s) == [i \in 1..Len(s) |-> IF Blank(s[i]) THEN s[i] ELSE "a"]
+AwkByCharacter(s) == LET t1 == Tokenize(s, AwkD)
+                         t2 == Tokenize(Skeleton(s), AwkD) IN
+                     /\ Len(t1) = Len(t2)
+                     /\ \A i \in 1..Len(t1) : t1[i].p = t2[i].p /\ Len(t1[i].t) = Len(t2[i].t)
 (* the documented examples, for a list of tokens *)
 RangeOf(lo, hi) == [ok |-> TRUE, lo |-> lo, hi |-> hi]
 SelectionDocumented(toks) ==
